@@ -189,8 +189,15 @@ def engine_seq(pid, tier, evidence=True):
     # ---- (3) random long histories, implementation -> specification
     nh, ln = (24, 120) if tier == "quick" else (160, 240)
     hj = seqplan.history_jobs(rng, nh, ln, run0)
+    for i, j in enumerate(hj):
+        if i % 3 == 1:
+            j["instances"] = 2          # two server instances on the same data, requests alternate between them
     run0 += len(hj)
     jobs += hj
+    # a sample of the tours through two alternating server instances as well
+    twin_inst = [dict(j, id=j["id"] + "-2i", run=run0 + i, instances=2) for i, j in enumerate(jx for jx in jobs[:ntours] if rng.random() < (0.08 if tier == "quick" else 0.3))]
+    run0 += len(twin_inst)
+    jobs += twin_inst
     if pid == "C18":
         # refused requests (the request grammar's malformed cases) must leave everything untouched as well
         import httpplan
@@ -294,7 +301,7 @@ def http_event_stats(files):
                 key = (hg["route"] if hg else e["req"]["op"], hg["method"] if hg else "-", h["status"], e["resp"]["kind"])
                 combos[key] += 1
                 if hg:
-                    classes[(hg["route"], hg["method"], hg["cid"], hg["pid"], hg["ct"], hg["size"], hg["chunks"], hg["cls"])] += 1
+                    classes[(hg["route"], hg["method"], hg["cid"], hg["pid"], hg["ct"], hg["size"], hg["chunks"], hg.get("abort", False), hg["cls"])] += 1
                     if len(samples) < 4 and nhttp % 211 == 5:
                         samples.append({"grammar_request": hg, "status": h["status"], "cache_control": h["cc"]})
     return nhttp, combos, classes, samples
@@ -355,6 +362,14 @@ def engine_http(pid, tier):
         stats["grammar"] = dict(cases=len(cases), tlc_states=gst["distinct"])
         if pid == "C15":
             js = httpplan.grammar_jobs(rng, cases, run0, ("inmemory", "sqlite"))
+            run0 += len(js)
+            jobs += js
+            # the upload cases once more over a real socket (Content-Length / chunked framing, broken chunk headers)
+            sockcases = [c for c in cases if c["route"] in ("av", "as") and c["method"] == "POST" and c["cid"] in ("valid", "absent", "garbage")
+                         and c["pid"] == "valid"]
+            js = httpplan.grammar_jobs(rng, sockcases, run0, ("sqlite", "inmemory"), prefix="gs")
+            for j in js:
+                j["driver"] = "sock"
             run0 += len(js)
             jobs += js
             big, _ = httpplan.grammar_cases(2, [20, httpplan.LIMIT - 1, httpplan.LIMIT, httpplan.LIMIT + 1], [1, 3])
@@ -1030,74 +1045,95 @@ def engine_crash(pid, tier):
                                 op_counts=dict(collections.Counter(o["op"] for o in ops)))
             stride = 1 if (tier == "thorough" or ncalls <= 700) else 2
             ks = list(range(1, ncalls + 1, stride))
-            # ---- (i) process-crash images: the real process is killed before call k
-            images = []
+            # images are produced, recovered by the real code in fresh processes, and deleted in bounded batches
+            state = dict(run=run, n=0, sample=None)
 
+            def recover_batch(images):
+                if not images:
+                    return
+                for im in images:
+                    im["run"] = state["run"]
+                    state["run"] += 1
+                state["n"] += len(images)
+                nb = min(NCPU, len(images))
+                batches = [images[i::nb] for i in range(nb)]
+                tag = state["run"]
+
+                def recover(bi):
+                    pf = os.path.join(wd, f"{hname}-rec{tag}-{bi}.json")
+                    of = os.path.join(wd, f"{hname}-rec{tag}-{bi}.ndjson")
+                    json.dump({"images": batches[bi], "continuation": cp.CONTINUATION}, open(pf, "w"))
+                    run_harness(binary, ["recover", pf, of], timeout=3000)
+                    os.remove(pf)
+                    return of
+                with ThreadPoolExecutor(max_workers=nb) as ex:
+                    for of in ex.map(recover, range(nb)):
+                        trace_files.append(of)
+                if state["sample"] is None:
+                    im = images[len(images) // 2]
+                    state["sample"] = {"crash_point": im["k"], "variant": im["variant"], "history": hname,
+                                       "known_at_crash": [dict(ev=e["ev"], req=e.get("req"), resp=e.get("resp", {}).get("kind")) for e in im["prefix"][-3:]]}
+                for im in images:
+                    shutil.rmtree(im["dir"], ignore_errors=True)
+
+            # ---- (i) process-crash images: the real process is killed before call k
             def kill_at(k):
                 d = os.path.join(shm, f"{hname}-pc{k}")
                 t = os.path.join(wd, f"{hname}-pc{k}.ndjson")
                 p = cp.crashrun(binary, hname, 0, d, t, crash_at=k)
                 return k, d, t, p.returncode
-            with ThreadPoolExecutor(max_workers=NCPU) as ex:
-                for k, d, t, rc in ex.map(kill_at, ks):
-                    if rc not in (77, 0):
-                        raise ToolError(f"crashrun at {k} ended with {rc}")
-                    evs = cp.read_events(t)
-                    os.remove(t)
-                    if rc == 77 and evs:
-                        images.append(dict(dir=d, prefix=evs, k=k, variant="process-crash"))
-            stats[hname]["process_crash_images"] = len(images)
+            npc = 0
+            dbsize = max(1, sum(len(o["data"]) for o in ops))          # upper bound of what a data directory holds
+            per_batch = max(NCPU, min(400, int(2e9 // dbsize)))
+            for i0 in range(0, len(ks), per_batch):
+                images = []
+                with ThreadPoolExecutor(max_workers=NCPU) as ex:
+                    for k, d, t, rc in ex.map(kill_at, ks[i0:i0 + per_batch]):
+                        if rc not in (77, 0):
+                            raise ToolError(f"crashrun at {k} ended with {rc}")
+                        evs = cp.read_events(t)
+                        os.remove(t)
+                        if rc == 77 and evs:
+                            images.append(dict(dir=d, prefix=evs, k=k, variant="process-crash"))
+                        else:
+                            shutil.rmtree(d, ignore_errors=True)
+                npc += len(images)
+                recover_batch(images)
+            stats[hname]["process_crash_images"] = npc
             # ---- (ii) power-loss images rebuilt from the I/O log
             dm = cp.DiskModel()
-            pl = []
             byseq = {o["seq"]: o for o in ops}
-            maxpend = 0
+            maxpend = npl = 0
+            images, batch_bytes, j = [], 0, 0
             for k in range(1, ncalls + 2):
                 if k in ks or k == ncalls + 1:
                     n = len(dm.pending)
                     maxpend = max(maxpend, n)
-                    for vname, subset in cp.variants(n, rng, tier):
-                        pl.append((k, vname, dm.image(subset)))
-                    if tier == "thorough" and n > 0:
-                        pl.append((k, f"torn{n-1}", dm.image(frozenset(range(n)), torn=n - 1)))
+                    big = dm.size() > 3_000_000         # large data directories: fewer variants per crash point
+                    vs = cp.variants(n, rng, "quick" if big else tier)
+                    if tier == "thorough" and n > 0 and not big:
+                        vs = vs + [(f"torn{n-1}", None)]
+                    for vname, subset in vs:
+                        files = dm.image(frozenset(range(n)), torn=n - 1) if subset is None else dm.image(subset)
+                        d = os.path.join(shm, f"{hname}-pl{j}")
+                        j += 1
+                        cp.write_image(files, d, dm.dirs)
+                        batch_bytes += sum(len(b) for b in files.values())
+                        images.append(dict(dir=d, prefix=cp.prefix_for(events, k), k=k, variant="power-loss:" + vname))
+                        npl += 1
+                        if batch_bytes > 2e9 or len(images) >= 3000:
+                            recover_batch(images)
+                            images, batch_bytes = [], 0
                 if k in byseq:
                     dm.step(byseq[k])
-            stats[hname]["power_loss_images"] = len(pl)
+            recover_batch(images)
+            stats[hname]["power_loss_images"] = npl
             stats[hname]["max_unsynced_ops"] = maxpend
-            for j, (k, vname, files) in enumerate(pl):
-                d = os.path.join(shm, f"{hname}-pl{j}")
-                cp.write_image(files, d)
-                images.append(dict(dir=d, prefix=cp.prefix_for(events, k), k=k, variant="power-loss:" + vname))
-            pl = None
-            # ---- recovery by the real code in fresh processes, batches in parallel
-            for i, im in enumerate(images):
-                im["run"] = run + i
-            run += len(images) + 1
-            nimg += len(images)
-            nb = NCPU
-            batches = [images[i::nb] for i in range(nb)]
-
-            def recover(bi):
-                b = batches[bi]
-                if not b:
-                    return None
-                pf = os.path.join(wd, f"{hname}-rec{bi}.json")
-                of = os.path.join(wd, f"{hname}-rec{bi}.ndjson")
-                json.dump({"images": b, "continuation": cp.CONTINUATION}, open(pf, "w"))
-                run_harness(binary, ["recover", pf, of], timeout=3000)
-                os.remove(pf)
-                return of
-            with ThreadPoolExecutor(max_workers=nb) as ex:
-                for of in ex.map(recover, range(nb)):
-                    if of:
-                        trace_files.append(of)
-            if not samples:
-                im = images[len(images) // 2]
-                samples.append({"crash_point": im["k"], "variant": im["variant"], "history": hname,
-                                "known_at_crash": [dict(ev=e["ev"], req=e.get("req"), resp=e.get("resp", {}).get("kind")) for e in im["prefix"][-3:]]})
-            for im in images:
-                shutil.rmtree(im["dir"], ignore_errors=True)
-            images = None
+            stats[hname]["files_seen"] = sorted(set(cp.fname(o["cls"].split(">")[-1]) for o in ops))[:12]
+            run = state["run"] + 1
+            nimg += state["n"]
+            if not samples and state["sample"]:
+                samples.append(state["sample"])
         t1 = time.time()
         chunks = split_trace(trace_files, os.path.join(wd, "chunks"), max_events=12000)
         viols, total = judge(chunks)
